@@ -365,7 +365,8 @@ DEFAULT_FIELDS = [
     ("i", "int", 7), ("s", "string", "dflt"), ("b", "bytes", "\\u00ff\\u0000"), ("d", "double", 1.5),
     ("xs", {"type": "array", "items": "int"}, [1, 2, 3]), ("m", {"type": "map", "values": "long"}, {"k": 1, "l": 2}),
     ("e", {"type": "enum", "name": "E0", "symbols": ["A", "B"]}, "B"), ("e2", "E0", "A"),
-    ("f", {"type": "fixed", "name": "F0", "size": 2}, "ab"), ("f2", "F0", "cd"),
+    ("f", {"type": "fixed", "name": "F0", "size": 2}, "ab"), ("f2", "F0", "cd"), ("f3", "F0", "ef"),
+    ("e3", "E0", "B"), ("r3", "Sub", {"x": 5, "ys": ["q"]}),
     ("r", {"type": "record", "name": "Sub", "fields": [{"name": "x", "type": "int"}, {"name": "ys", "type": {"type": "array", "items": "string"}}]},
      {"x": 1, "ys": ["p", "q"]}),
     ("r2", "Sub", {"x": 2, "ys": []}),
@@ -392,6 +393,46 @@ def empty_list_family(run, tier, seed):
         if "text" not in it or it["text"] != "":
             run.fail(dict(case, impl=it, tags=case["tags"] + mtag(agrees_enc(s, [], True, it))),
                      "json_writer with an empty record list: raised %s / wrote %r" % (it.get("err"), it.get("text", "")[:40]), kind="oracle")
+
+
+def big_output_family(run, tier, seed):
+    """one json_writer call producing far more than 64 KiB of text (many small records; a few huge ones): still one
+    document per line, every line the record's encoding, and json_reader returns the records"""
+    import random
+    for i in range(scale(tier, 3)):
+        r = random.Random(seed * 5 + i)
+        s = {"type": "record", "name": "Row", "fields": [{"name": "id", "type": "long"}, {"name": "name", "type": "string"},
+                                                          {"name": "tags", "type": {"type": "array", "items": "string"}},
+                                                          {"name": "blob", "type": "bytes"}]}
+        if i % 3 == 0:
+            recs = [{"id": j, "name": "n%d" % j, "tags": ["t"] * (j % 4), "blob": bytes([j % 256])} for j in range(1500)]
+        elif i % 3 == 1:
+            recs = [{"id": j, "name": "x" * 30000, "tags": [], "blob": b""} for j in range(4)]
+        else:
+            recs = [{"id": j, "name": "", "tags": [], "blob": bytes(r.getrandbits(8) for _ in range(40000))} for j in range(3)]
+        it = impl_json(s, recs)
+        case = {"schema": s, "n_records": len(recs), "tags": ["big-output"]}
+        run.count(case, True, ["big-output"])
+        if "text" not in it:
+            run.fail(dict(case, impl=it), "json_writer raised on a long record list: %s" % it.get("err"), kind="oracle")
+            continue
+        lines = it["text"].split("\n")
+        ok = len(lines) == len(recs)
+        if ok:
+            try:
+                for rec, line in zip(recs, lines):
+                    d = json.loads(line)
+                    if d["id"] != rec["id"] or d["name"] != rec["name"] or d["blob"] != rec["blob"].decode("iso-8859-1") or d["tags"] != rec["tags"]:
+                        ok = False
+                        break
+            except Exception:
+                ok = False
+        if not ok:
+            run.fail(dict(case, text_len=len(it["text"]), n_lines=len(lines)), "json_writer output is not one JSON document per record", kind="oracle")
+            continue
+        back = impl_read(s, it["text"])
+        if "ok" not in back or [from_wire(x) for x in back["ok"]] != recs:
+            run.fail(dict(case, back=str(back)[:200]), "json_reader does not return the written record", kind="oracle")
 
 
 def defaults_family(run, tier, seed):
@@ -578,6 +619,7 @@ def run(tier, seed):
     machine_correspondence(run, tier, seed)
     defaults_family(run, tier, seed)
     empty_list_family(run, tier, seed)
+    big_output_family(run, tier, seed)
     res = run_batch(dec_reqs) if dec_reqs else []
     for (case, back), r in zip(dec_meta, res):
         if "ok" not in r or by_value(canon(r["ok"])) != by_value(canon(back)):
